@@ -143,7 +143,7 @@ func orderJob(n, reqlen, undefined, dup, fail int) jobSpec {
 
 func init() {
 	register(&checkDef{
-		ID: "C03", Pkg: "runh", Level: "other", NativeCheck: true, UseStubs: true, OnlyPrefix: "C03/",
+		ID: "C03", Pkg: "runh", Level: "other", NativeCheck: true, NativeRepeat: 20, UseStubs: true, OnlyPrefix: "C03/",
 		Explanation: "Bounded symbolic execution of the real file.New (duplicate detection) and SpokFile.Run (buildGraph, dag.New/AddVertex/AddEdge/Sort with its set and queue, run) on task graphs whose edge set, including self-loops, is symbolic (every subset of the n*n directed edges is a path), with a symbolic request list, an optional dependency on / request of an undefined name, an optional duplicate definition, an optional failing command, and every iteration order of the maps inside the dag package (a decision per range step). " +
 			"A reference closure/cycle computation in the harness says whether the selection is an error case; the real code must then return an error and run nothing, or run exactly the closure, each task once, dependencies first, with results in execution order.",
 		Bounds: func(tier string) string {
